@@ -183,7 +183,7 @@ C12_Frame(cmd, s) ==
     IN (IF keepF /\ s.sha.f # sha.f THEN <<<<"C12", cmd \o "-changed-data", <<sha.f, s.sha.f>>>>>> ELSE <<>>) \o
        (IF keepP /\ s.sha.p # sha.p THEN <<<<"C12", cmd \o "-changed-parity", <<sha.p, s.sha.p>>>>>> ELSE <<>>) \o
        (IF keepC /\ s.sha.c # sha.c THEN <<<<"C12", cmd \o "-changed-content", <<sha.c, s.sha.c>>>>>> ELSE <<>>) \o
-       (IF s.sha.x # sha.x THEN <<<<"C12", cmd \o "-extra-artefacts", <<sha.x, s.sha.x>>>>>> ELSE <<>>)
+       (IF ~(ToSet(s.sha.x) \subseteq ToSet(sha.x)) THEN <<<<"C12", cmd \o "-extra-artefacts", <<sha.x, s.sha.x>>>>>> ELSE <<>>)
 
 Init ==
     /\ l = 2
@@ -259,7 +259,12 @@ SyncKilledStep ==
            L0 == ClearPast(C)
            presave == Normalize(Scan(L0, fs, SrcsOf(a), TRUE))
            newc == LoggedC(Ev.state)
-           okC == newc \in {C, presave, r.C}
+           alts == Ev.state.alts
+           loadable == {i \in 1..Len(alts) : "bad" \notin DOMAIN alts[i]}
+           partial == {i \in 1..Len(alts) : "bad" \in DOMAIN alts[i] /\ alts[i].bad = "BAD"}
+           okC == \A i \in loadable : LoggedC(alts[i]) \in {C, presave, r.C}
+           newpar == ParMerge(par, Ev.state)
+           c06 == \A i \in loadable : ParityValid(LoggedC(alts[i]), newpar) /\ MapSane(LoggedC(alts[i]))
        IN /\ Follow(Ev.state, par)
           /\ diag' = IF okC THEN <<>> ELSE <<"SyncKilled", l, DiffC(presave, newc)>>
           /\ clean' = FALSE
@@ -267,7 +272,10 @@ SyncKilledStep ==
                       ELSE [d \in D |-> [n \in DOMAIN newc.cf[d] |->
                               IF n \in Fresh(L0, fs, d) /\ n \in DOMAIN fs[d] THEN fs[d][n].b
                               ELSE IF n \in DOMAIN ghost[d] THEN ghost[d][n] ELSE <<>>]]
-          /\ pviol' = IF Ev.state.sha.f # sha.f THEN <<<<"C07", "killed-sync-changed-data", <<>>>>>> ELSE <<>>
+          /\ pviol' = (IF Ev.state.sha.f # sha.f THEN <<<<"C07", "killed-sync-changed-data", <<>>>>>> ELSE <<>>) \o
+                      (IF partial # {} THEN <<<<"C09", "content-copy-partial-after-kill", partial>>>> ELSE <<>>) \o
+                      (IF loadable = {} THEN <<<<"C07", "no-content-copy-loads-after-kill", <<>>>>>> ELSE <<>>) \o
+                      (IF ~dmg /\ ~c06 THEN <<<<"C07", "synced-stripes-without-valid-parity-after-kill", a.rules>>>> ELSE <<>>)
           /\ afterfix' = FALSE
           /\ UNCHANGED <<snap, dmg>>
 
